@@ -21,7 +21,7 @@ try:
     for c in checks:
         q = sh(f"cd /verif && ./check {c} --tier quick", timeout=3000)
         lines = [l for l in q.stdout.splitlines() if l.startswith(("VIOLATION", "KNOWN-FINDING"))]
-        results[c] = {"exit": q.returncode, "lines": lines[:6]}
+        lines.sort(key=lambda l: not l.startswith("VIOLATION")); results[c] = {"exit": q.returncode, "lines": lines[:6]}
         print(c, "exit", q.returncode, *lines[:3], sep="\n   ")
 finally:
     sh("git -C /repo checkout -- . && git -C /repo clean -fdq pyvolutionary")
